@@ -287,6 +287,37 @@ def check_locking_deque(run, model, rule_ends, rule_token, rule_bound, rule_mono
         for n, c, m in adds:
             ok = len(c.args) == 1 and isinstance(c.args[0], ast.Name) and c.args[0].id == item
             run.inst(rule_ends, f, '%s adds its own item' % nm, ok, '' if ok else 'adds %s' % norm(c), node=c, obligation=True)
+        # ---- overflow policy: the sequence of deque operations of every path, applied to a symbolic bounded deque, leaves the same content as a plain
+        # bounded deque would - except that a full queue gives up its right-most (newest fifo) element, never a front (lifo) one
+        from .util import expand_locals as _xl
+        fulltxt_ = '%s.%s.full()' % (selfn, tq)
+
+        def full_edge(n_, lab_):
+            # does taking this edge say that the token queue is full (True) / has room (False)?
+            if n_.kind != 'test' or lab_ not in ('true', 'false'):
+                return None
+            inner_, pol_ = strip_not(_xl(n_.ast, f.node, params=f.params, observers=True))
+            cp_ = compare_parts(inner_)
+            if cp_ and norm(cp_[0]) == fulltxt_ and isinstance(cp_[2], ast.Constant) and isinstance(cp_[2].value, bool) and cp_[1] in (ast.Is, ast.Eq, ast.IsNot, ast.NotEq):
+                v_ = cp_[2].value if cp_[1] in (ast.Is, ast.Eq) else (not cp_[2].value)
+            elif norm(inner_) == fulltxt_:
+                v_ = True
+            else:
+                return None
+            v_ = v_ if pol_ else (not v_)
+            return v_ if lab_ == 'true' else (not v_)
+        for seq, fullness in deque_op_sequences(g, selfn + '.' + dq, edge_fact=full_edge):
+            for full in ((False, True) if fullness is None else (fullness,)):
+                got = apply_deque_ops(seq, full)
+                want = (['x0', 'x1', 'ITEM'] if nm == 'append' else ['ITEM', 'x0', 'x1'])
+                if got is None:
+                    raise AnalysisError('LockingDeque.%s: operation sequence %s on the deque is not modelled' % (nm, [m_ for m_, _a in seq]))
+                ok = got == want
+                run.inst(rule_ends, f, '%s: deque content after [%s] on a %s queue' % (nm, ', '.join('%s(%s)' % (m_, a_) for m_, a_ in seq), 'full' if full else 'non-full'), ok,
+                         '' if ok else ('on a %s queue the operations [%s] turn [x0, x1%s] into %s, expected %s: %s'
+                                        % ('full' if full else 'non-full', ', '.join('%s(%s)' % (m_, a_) for m_, a_ in seq), ', x2' if full else '', got, want,
+                                           'an element other than the right-most one is dropped, the remaining events are dispatched out of posting order' if full
+                                           else 'the existing events are reordered')), obligation=True)
         # ---- TOKEN: puts are guarded; repair test after the add; monotone loops
         puts = ops_on(g, selfn + '.' + tq, {'put', 'put_nowait'})
         run.floor('%s token put sites' % nm, len(puts), 1)
@@ -385,6 +416,71 @@ def check_locking_deque(run, model, rule_ends, rule_token, rule_bound, rule_mono
         ok = len(rets) == 1 and rets[0].value is not None and norm(rets[0].value) == 'len(%s.%s)' % (f.params[0], dq)
         run.inst(rule_ends, f, '%s is the deque length' % nm, ok, '' if ok else '%s does not return len(deque)' % nm, obligation=True)
     return info
+
+
+def deque_op_sequences(g, path, limit=64, edge_fact=None):
+    """the distinct sequences of operations on the deque at `path` along the entry->exit paths of g (each loop taken at most once)"""
+    seqs = set()
+    ops = {}
+    for n in g.nodes:
+        if n.kind in ('entry', 'exit', 'xexit', 'def'):
+            continue
+        lst = []
+        for c in n.calls():
+            if isinstance(c.func, ast.Attribute) and dotted(c.func.value) == path and c.func.attr in ('append', 'appendleft', 'rotate', 'pop', 'popleft', 'clear', 'extend', 'extendleft', 'insert', 'remove'):
+                a = c.args[0] if c.args else None
+                lst.append((c.func.attr, norm(a) if a is not None else ''))
+        if lst:
+            ops[n] = lst
+    count = [0]
+
+    def walk(n, seq, seen_edges, fact):
+        if count[0] > 4000:
+            raise AnalysisError('too many paths while enumerating deque operations')
+        count[0] += 1
+        seq = seq + tuple(ops.get(n, ()))
+        if n is g.exit:
+            seqs.add((seq, fact))
+            return
+        for m, lab in g.succ[n]:
+            if lab == 'exc':
+                continue
+            e = (n.id, m.id)
+            if e in seen_edges:
+                continue
+            f2 = fact
+            if edge_fact is not None:
+                v = edge_fact(n, lab)
+                if v is not None:
+                    if fact is not None and fact != v:
+                        continue        # contradicts an earlier test on this path
+                    f2 = v
+            walk(m, seq, seen_edges | {e}, f2)
+    walk(g.entry, (), frozenset(), None)
+    if len(seqs) > limit:
+        raise AnalysisError('too many distinct deque operation sequences')
+    return sorted(seqs, key=lambda x: (x[0], str(x[1])))
+
+
+def apply_deque_ops(seq, full, maxlen=3):
+    """content of a deque(maxlen=3) that held [x0, x1] (or [x0, x1, x2] when full) after the operations; the added item is ITEM.
+    On a full queue the expected result keeps x0, x1 (the front) and gives up x2."""
+    from collections import deque as _dq
+    d = _dq(['x0', 'x1', 'x2'] if full else ['x0', 'x1'], maxlen=maxlen)
+    for m, a in seq:
+        if m == 'append':
+            d.append('ITEM')
+        elif m == 'appendleft':
+            d.appendleft('ITEM')
+        elif m == 'rotate':
+            try:
+                k = int(a) if a != '' else 1
+            except ValueError:
+                return None
+            d.rotate(k)
+        else:
+            return None
+    return list(d)
 
 
 def is_qsize(e, selfn, tq):
